@@ -26,7 +26,12 @@ fn init_accepts(m: &Merchant, rng: &mut (impl RngCore + CryptoRng), cid: &Channe
 fn pay_accepts(m: &Merchant, rng: &mut (impl RngCore + CryptoRng), amt: i64, nonce: &[u8], proof: &[u8], ctx: &[u8]) -> Result<bool, String> {
     let p: zk::PayProof = dec(proof)?;
     let n: zk::Nonce = dec(nonce)?;
-    Ok(m.cfg.allow_payment(rng, amount(amt)?, &n, p, &Context::new(ctx)).is_some())
+    // amounts no constructor produces (i64::MIN) are obtained the way a merchant would get them: decoded
+    let pa = match amount(amt) {
+        Ok(a) => a,
+        Err(_) => dec::<zk::PaymentAmount>(&amt.to_le_bytes())?,
+    };
+    Ok(m.cfg.allow_payment(rng, pa, &n, p, &Context::new(ctx)).is_some())
 }
 
 /// merchant configuration identical to `m` except for the part taken from `other`
@@ -72,6 +77,10 @@ fn context_variants(ctx: &[u8]) -> Vec<(&'static str, Vec<u8>)> {
     v.push(("context-byte-appended", a));
     v.push(("context-truncated", ctx[..ctx.len() - 1].to_vec()));
     v.push(("context-empty", vec![]));
+    {
+        use sha3::{Digest, Sha3_256};
+        v.push(("context-replaced-by-its-sha3-digest", Sha3_256::digest(ctx).to_vec()));
+    }
     v
 }
 
@@ -197,7 +206,7 @@ fn pay_case(c: &mut Ctx, m: &'static Merchant, other: &'static Merchant, name: &
     let fresh_nonce = enc(&zk::internal::test_new_nonce(&mut rng));
     subs.push(("nonce-fresh".into(), pay_accepts(m, &mut rng, amt, &fresh_nonce, &proof, &ctx)));
     for (k, a) in [("amount+1", amt.wrapping_add(1)), ("amount-1", amt.wrapping_sub(1)), ("amount-negated", -amt), ("amount-zero", 0), ("amount-doubled", amt.wrapping_mul(2))] {
-        if a != amt && a != i64::MIN {
+        if a != amt {
             subs.push((k.into(), pay_accepts(m, &mut rng, a, &nonce, &proof, &ctx)));
         }
     }
@@ -533,7 +542,7 @@ pub fn run(c: &mut Ctx) {
             });
         }
     }
-    let pays: Vec<(u64, u64, i64)> = vec![(1000, 10, 7), (10, 1000, -7), (500, 500, 0), (MAXB, 0, MAXB as i64), (0, MAXB, -1), (1 << 40, 1 << 40, -(1 << 39))];
+    let pays: Vec<(u64, u64, i64)> = vec![(0, MAXB, -(MAXB as i64)), (1000, 10, 7), (10, 1000, -7), (500, 500, 0), (MAXB, 0, MAXB as i64), (0, MAXB, -1), (1 << 40, 1 << 40, -(1 << 39))];
     let preps = c.tier.pick(1usize, 8);
     for r in 0..preps {
         for (i, (cust, merch, a)) in pays.iter().enumerate() {
